@@ -66,7 +66,7 @@ def _source_of(ident):
             return bytes.fromhex(ident[5:]).decode("utf-8", "replace")
         except ValueError:
             return None
-    if ident.startswith(("lit:", "gen:", "decl:", "tpl:", "dfn:")):
+    if ident.startswith(("lit:", "gen:", "decl:", "tpl:", "dfn:", "tdr:")):
         try:
             r = subprocess.run([_harness_exe(), "c04", "source", ident], capture_output=True, text=True, timeout=60)
         except Exception:
